@@ -259,6 +259,7 @@ for r in req:
         f0 = FileAnonymizer(**pre)
         if rt:
             f0.anonymize_io(io.StringIO(rt), io.StringIO())
+        del f0                      # dropped before the next one is constructed: its memory (and object identities) can be reused
     if "files" in r:
         d = tempfile.mkdtemp(prefix="ncverif_")
         try:
@@ -285,6 +286,7 @@ for r in req:
     o = io.StringIO()
     fa.anonymize_io(io.StringIO(r["text"]), o)
     out.append(o.getvalue())
+    del fa
 json.dump(out, sys.stdout)
 """
 
@@ -321,6 +323,32 @@ def hashseed_scope(res, pid, rng, tier):
                            sensitive_words=["router"] + list(words), as_numbers=["65001", "12"], preserve_networks=["10.1.0.0/16"],
                            run_text=text)]
         reqs.append({"kwargs": kw, "text": text, "before": before})
+    # two listed words whose six-digit pseudonyms coincide under the salt (found by search: ~n^2 / 2^25 pairs among n candidates):
+    # both are replaced by that pseudonym in every process, whatever order a set of words is iterated in
+    csalt = SALTS[(res.seed + 2) % len(SALTS)] or "cs"
+    seen_p = {}
+    pair = None
+    for i in range(40000):
+        w_ = "site%d" % (1000 + i)
+        h_ = hashlib.md5((csalt + w_).encode()).hexdigest()[:6]
+        if h_ in seen_p:
+            pair = (seen_p[h_], w_)
+            break
+        seen_p[h_] = w_
+    if pair:
+        text = "hostname %s-gw\n description uplink to %s via %s\n peer %s %s\n" % (pair[0], pair[1], pair[0], pair[1].upper(), pair[0])
+        reqs.append({"kwargs": dict(anon_pwd=False, anon_ip=False, salt=csalt, sensitive_words=[pair[0], pair[1], "zork"]), "text": text, "before": []})
+        reqs.append({"kwargs": dict(anon_pwd=False, anon_ip=False, salt=csalt, sensitive_words=[pair[1], "xyzzy", pair[0]]), "text": text, "before": []})
+    # a churn of anonymizers with reserved words of their own, created and dropped, before an anonymizer whose own reserved word
+    # protects a token: nothing of the dead ones may reach it (object identities are recycled by the allocator)
+    churn = [dict(anon_pwd=False, anon_ip=False, salt="x%d" % i, sensitive_words=["zzzq"], reserved_words=["edge-sw%d" % i]) for i in range(12)]
+    tkw = dict(anon_pwd=False, anon_ip=False, salt="demoSalt", sensitive_words=["core"], reserved_words=["corerouter", "Core-sw1"])
+    creqs = []
+    for k_ in range(12):
+        # (one unrelated anonymizer created and dropped, then the same request again: every step of the history is looked at;
+        #  these run in a process of their own, see below)
+        creqs.append({"kwargs": tkw, "text": "hostname corerouter\n description core-sw1 to corerouter and coreswitch\n", "before": [churn[k_]],
+                     "fresh_ref": True})
     if pid == "C13":
         files = {}
         for k, name in enumerate(["a.cfg", "b.cfg", "sub/c.cfg", "sub/d.cfg", "z/e.cfg", "f.cfg"]):
@@ -331,7 +359,31 @@ def hashseed_scope(res, pid, rng, tier):
     ref, err = run_in_process(base, 0)
     if ref is None:
         return [{"op": "subprocess", "impl": "failed: " + str(err), "model": "ok", "meta": None}], fails
+    fresh = {}
+    for i_, r_ in enumerate(reqs):
+        if r_.get("fresh_ref"):
+            # the reference of these requests is a process in which nothing else was ever constructed (in `ref` the earlier
+            # requests of the list are a history too)
+            key_ = json.dumps([r_["kwargs"], r_["text"]], sort_keys=True)
+            if key_ not in fresh:
+                one, err1 = run_in_process([dict(r_, before=[])], 0)
+                fresh[key_] = one[0] if one is not None else None
+            if fresh[key_] is not None:
+                ref[i_] = fresh[key_]
     seeds = [1, 2, 3] if tier == "quick" else [1, 2, 3, 4, 5, 7, 11, 99]
+    one, err1 = run_in_process([dict(creqs[0], before=[])], 0)
+    for hs in ([0, 1] if tier == "quick" else [0, 1, 2, 3]):
+        gotc, errc = run_in_process(creqs, hs)
+        res.evaluations += len(creqs)
+        if one is None or gotc is None:
+            dis.append({"op": "subprocess (churn) PYTHONHASHSEED=%d" % hs, "impl": "failed: " + str(err1 or errc), "model": "ok", "meta": None})
+            continue
+        for k_, b_ in enumerate(gotc):
+            if b_ != one[0]:
+                fails.append({"kind": "output differs between interpreter processes (after %d other anonymizers were created and dropped in the process vs a fresh process)" % (k_ + 1),
+                              "kwargs": tkw, "constructed_before": [c_["before"][0] for c_ in creqs[:k_ + 1]], "input": creqs[0]["text"],
+                              "output_fresh_process": one[0], "output_after_history": b_})
+                break
     for hs in seeds:
         got, err = run_in_process(reqs, hs)
         res.evaluations += len(reqs)
